@@ -309,17 +309,25 @@ def build_layer(cfg, bank, key_int):
     return ml.ConvContract(signature(sig_of(cfg["in_sig"])), signature(sig_of(cfg["out_sig"])), bank, cfg["bias"], stride, padding, lhs, rhs, jax.random.PRNGKey(key_int))
 
 
-def sensitivity(f, x, rng, rel=1e-5):
-    """kappa = (trace-normalised output change) / (relative input perturbation): conditioning of f at x."""
+def sensitivity(f, x, rng, rel=1e-5, rels=None):
+    """kappa = (trace-normalised output change) / (relative input perturbation): conditioning of f at x.
+    Normalisation layers respond non-linearly (a weak direction is amplified more the smaller the perturbation), so
+    the estimate is the maximum over several perturbation sizes down to 1e-5 (below that float32 noise dominates)."""
     import jax.numpy as jnp
     import ginjax.geometric as geom
 
     S_in = max(trace_scale(x), 1e-30)
-    xp = geom.MultiImage({t: v + jnp.asarray((rel * S_in * rng.normal(size=v.shape)).astype(np.float32)) for t, v in x.data.items()}, x.D, x.is_torus)
-    y, yp = f(x), f(xp)
+    y = f(x)
     S = trace_scale(x, y)
-    d, msg = compare(yp, probes.blocks(y), None, S)
-    return (d / rel) if msg is None else float("inf")
+    Y = probes.blocks(y)
+    worst = 0.0
+    for r in (rels or sorted({rel, 1e-4, 1e-5})):
+        xp = geom.MultiImage({t: v + jnp.asarray((r * S_in * rng.normal(size=v.shape)).astype(np.float32)) for t, v in x.data.items()}, x.D, x.is_torus)
+        d, msg = compare(f(xp), Y, None, S)
+        if msg is not None:
+            return float("inf")
+        worst = max(worst, d / r)
+    return worst
 
 
 # ---- model configurations (C07 / C09 / C13 / C14 / C20) --------------------------------------
@@ -416,9 +424,11 @@ def gen_model_cfg(rng, D, classes=("UNet", "UNet", "ResNet", "ResNet", "DilResNe
             "bank_ks": list(range(0, 2 * kmax + 1)), "torus": [bool(rng.integers(0, 2))] * D if rng.integers(0, 4) else [bool(v) for v in rng.integers(0, 2, size=D)],
         }
         if cls == "UNet":
-            cfg["N"] = [2 ** cfg["num_downsamples"] * int(rng.integers(1, 3))] * D if D == 2 else [4] * D
+            # with normalisation the coarsest level keeps at least 2 pixels per axis (statistics over a single pixel are degenerate)
+            lo = 2 if norm else 1
+            cfg["N"] = [2 ** cfg["num_downsamples"] * int(rng.integers(lo, 3))] * D if D == 2 else [4] * D
             if rng.integers(0, 3) == 0 and D == 2:
-                cfg["N"] = [2 ** cfg["num_downsamples"] * int(v) for v in rng.integers(1, 3, size=D)]
+                cfg["N"] = [2 ** cfg["num_downsamples"] * int(v) for v in rng.integers(lo, 3, size=D)]
         else:
             cfg["N"] = [int(v) for v in (rng.integers(3, 7, size=D) if D == 2 else rng.integers(3, 5, size=D))]
             if rng.integers(0, 2):
@@ -467,3 +477,29 @@ def build_model(cfg, key_int):
             kw["upsample_filters"] = up
         return models.UNet(D, in_sig, out_sig, depth=cfg["depth"], num_downsamples=cfg["num_downsamples"], num_conv=cfg["num_conv"], activation_f=act, use_group_norm=cfg["norm"], key=key, **kw)
     raise ValueError(cls)
+
+
+def near_singular_norm_input(layer, x, D, ratio=1e-2):
+    """Genericity guard of C08/C07 for the normalisation layers (the property's own side condition 'covariance not
+    near-singular'): True if, for some k=1 block and channel group, the smallest eigenvalue of the covariance the
+    whitening inverts is below `ratio` times the largest (the null direction is then rounding noise amplified by up to
+    1/sqrt(eps)=316 per layer), or if a k=0 group has (numerically) zero variance."""
+    groups = int(getattr(layer, "groups", 1))
+    for (k, p), blk in x.data.items():
+        v = np.asarray(blk, dtype=np.float64)
+        c = v.shape[0]
+        if c % groups:
+            continue
+        g = v.reshape((groups, c // groups) + v.shape[1:])
+        for gi in range(groups):
+            if k == 1:
+                X = g[gi] - g[gi].mean(axis=tuple(range(0, 1 + D)), keepdims=True)
+                X = X.reshape(-1, D)
+                w = np.linalg.eigvalsh(X.T @ X / max(1, len(X)))
+                if w[-1] <= 0 or w[0] < ratio * w[-1]:
+                    return True
+            elif k == 0:
+                var = g[gi].var()
+                if var < 1e-6 * max(1e-30, float(np.max(np.abs(g[gi])) ** 2)):
+                    return True
+    return False
